@@ -4,9 +4,9 @@
 From Coq Require Import Extraction ExtrOcamlBasic.
 From RV Require Import Model.Common Model.Real32 Model.Num Model.Datum Model.Lexer Model.Reader
   Model.Macro Model.Ast Model.Transform Model.Value Model.Equal Model.Print Model.Builtins
-  Model.Eval Model.Interp.
+  Model.Eval Model.EvalD Model.Interp.
 Extraction "model.ml"
-  Common.str_eqb Common.errkind_eqb Common.bind Common.mapM
+  Common.str_eqb Common.loc_or Ast.eloc Common.errkind_eqb Common.bind Common.mapM
   Real32.f32_of_bits Real32.bits_of_f32 Real32.f32_of_decimal
   Num.num_add Num.num_sub Num.num_mul Num.num_div Num.num_abs Num.num_sqrt Num.num_floor
   Num.num_ceiling Num.num_floor_quotient Num.num_floor_remainder Num.num_exact
@@ -17,7 +17,7 @@ Extraction "model.ml"
   Value.empty_state Value.env_define Value.env_get
   Print.display Print.print_f32 Print.print_number
   Builtins.builtin_table Builtins.tick_table
-  Eval.eval_expr Eval.apply_proc
+  Eval.eval_expr Eval.apply_proc EvalD.deval_expr Interp.parse_next
   Interp.register_factory Interp.file_chars Interp.factory_from_text Interp.eval_import_set
   Interp.eval_import Interp.eval_ast Interp.eval_text Interp.eval_file Interp.initial_syntax
   Interp.new_instance Interp.import_stdlib Interp.default_efuel Interp.native_defs.
